@@ -36,6 +36,26 @@ class Ref:
         return "".join(self.base(c) for c in range(a, b))
 
 
+def left_align(ref, edits, limit=60):
+    """Shift deletions / insertions to their left-most equivalent placement, as aligners do."""
+    subs, dels, ins = edits
+    touched = set(subs)
+    out_d = []
+    for a, b in dels:
+        k = 0
+        while k < limit and ref.base(a - 1) == ref.base(b - 1) and (a - 1) not in touched:
+            a, b, k = a - 1, b - 1, k + 1
+        out_d.append((a, b))
+    out_i = {}
+    for P, x in ins.items():
+        k = 0
+        while k < limit and ref.base(P) == x[-1] and P not in touched:
+            x = x[-1] + x[:-1]
+            P, k = P - 1, k + 1
+        out_i[P] = out_i.get(P, "") + x
+    return subs, sorted(out_d), out_i
+
+
 def edits_from_variants(variants):
     """Loaded variants -> (substitutions {pos: base}, deletions [(a, b)], insertions {after_pos: seq})."""
     subs, dels, ins = {}, [], {}
@@ -172,7 +192,8 @@ def tile_segment(a, b, rl, step, clip_lo, clip_hi, phase=0):
 
 
 def simulate(gene, haplotypes, rl=100, depth=20, ref=None, rng=None, neutral=None, neutral_copies=2,
-             paired=False, error_rate=0.0, lowq_fraction=0.0, name_prefix="r", jitter=False):
+             paired=False, error_rate=0.0, lowq_fraction=0.0, name_prefix="r", jitter=False,
+             indel_placement="left"):
     """haplotypes: list of dicts {"segments": [...], "variants": [Mutation], "depth": optional}.
     Returns a list of read dicts."""
     import random
@@ -184,6 +205,8 @@ def simulate(gene, haplotypes, rl=100, depth=20, ref=None, rng=None, neutral=Non
     n = 0
     for hi, h in enumerate(haplotypes):
         edits = edits_from_variants(h["variants"])
+        if indel_placement == "left":
+            edits = left_align(ref, edits)
         st = max(1, rl // h.get("depth", depth))
         for (gi, a, b, clo, chi) in h["segments"]:
             ed = edits if gi == 0 else ({}, [], {})
